@@ -9,6 +9,25 @@ use crate::session::*;
 use embedded_cli::command::RawCommand;
 use embedded_cli::writer::Writer;
 
+/// interned `'static` copies of scripts (events need `&'static [Piece]`; interning bounds the leak by the
+/// number of distinct scripts)
+pub fn intern_script(v: Vec<Piece>) -> &'static [Piece] {
+    use std::collections::HashMap;
+    use std::sync::{OnceLock, RwLock};
+    static POOL: OnceLock<RwLock<HashMap<Vec<Piece>, &'static [Piece]>>> = OnceLock::new();
+    let pool = POOL.get_or_init(|| RwLock::new(HashMap::new()));
+    if let Some(x) = pool.read().unwrap().get(&v) {
+        return x;
+    }
+    let mut m = pool.write().unwrap();
+    if let Some(x) = m.get(&v) {
+        return x;
+    }
+    let l: &'static [Piece] = Box::leak(v.clone().into_boxed_slice());
+    m.insert(v, l);
+    l
+}
+
 pub struct WriterModel {
     pub pieces: Vec<Piece>,
     pub contexts: Vec<(String, Sess)>,
@@ -57,7 +76,7 @@ fn writer_state(script: &[Piece]) -> Result<(bool, [u8; 2]), String> {
 
 impl Model for WriterModel {
     type State = Vec<Piece>;
-    type Key = ((bool, [u8; 2]), (bool, bool));
+    type Key = ((bool, [u8; 2]), (bool, bool), u64);
     type Event = Piece;
 
     fn name(&self) -> String {
@@ -71,7 +90,25 @@ impl Model for WriterModel {
     }
     fn key(&self, s: &Vec<Piece>) -> Self::Key {
         let out = script_out(s);
-        (writer_state(s).unwrap_or((false, [0xEE; 2])), (!out.is_empty(), out.ends_with('\n')))
+        // one-step behaviour: the framing decision (is_dirty seen through Cli::write) after every next call;
+        // separates writer states the hook accessor cannot tell apart
+        let sig = {
+            use std::hash::{Hash, Hasher};
+            let mut h = std::collections::hash_map::DefaultHasher::new();
+            let n_prefix = script_out(s).len();
+            // probes: every kind of call with the texts that can change the writer's mind
+            for p in self.pieces.iter().filter(|p| matches!(p.text, "" | "a" | "\n" | "\r" | "a\n" | "\ra")) {
+                let mut sc = s.clone();
+                sc.push(*p);
+                let leaked: &'static [Piece] = intern_script(sc);
+                let (_, calls) = apply::<RawCommand<'static>>(&self.contexts[0].1, &Ev::Write(leaked));
+                let bytes = sink_bytes(&calls[0].sink);
+                // only what follows the already emitted prefix matters
+                bytes[bytes.len().min(4 + n_prefix)..].hash(&mut h);
+            }
+            h.finish()
+        };
+        (writer_state(s).unwrap_or((false, [0xEE; 2])), (!out.is_empty(), out.ends_with('\n')), sig)
     }
     fn render_event(&self, e: &Piece) -> String {
         format!("{:?}({:?})", e.kind, e.text)
@@ -79,7 +116,7 @@ impl Model for WriterModel {
     fn step(&self, s: &Vec<Piece>, e: &Piece, stats: &mut Stats) -> StepOut<Vec<Piece>> {
         let mut script = s.clone();
         script.push(*e);
-        let leaked: &'static [Piece] = Box::leak(script.clone().into_boxed_slice());
+        let leaked: &'static [Piece] = intern_script(script.clone());
         let out = script_out(&script);
         let body = framed(&out);
         let mut v = vec![];
